@@ -215,6 +215,10 @@ def inferDefault (p : Param) (inferType : Bool) : Res Param :=
       | none => .raises "KeyError"
     else .ok { p with default := some d2, typ := typ2 }
 
+/-- what `_set_name_and_type` does to prose when `word_wrap` is on: every line stripped, the lines joined by one
+    blank, the result right-stripped -/
+def unwrapProse (d : Str) : Str := stripRight pyWs (joinWith [' '] ((splitOnChar '\n' d).map (strip pyWs)))
+
 /-- `_set_name_and_type((name, param), infer_type, word_wrap)` -/
 def setNameAndType (name : Option Str) (p : Param) (inferType wordWrap : Bool) : Res (Str × Param) :=
   match name with
@@ -238,7 +242,7 @@ def setNameAndType (name : Option Str) (p : Param) (inferType wordWrap : Bool) :
     match p.doc with
     | none => .ok (name, p)
     | some d =>
-      let d' := stripRight pyWs (if wordWrap then joinWith [' '] ((splitOnChar '\n' d).map (strip pyWs)) else d)
+      let d' := if wordWrap then unwrapProse d else stripRight pyWs d
       let p := { p with doc := some d' }
       let p := match p.typ with
         | some t =>
